@@ -11,11 +11,15 @@
   probe / continuation, and stated as `C11_norm_sound` in Props/C11.lean), and it implies `Obs`
   equality.
 
-  The two exceptions the property text names — and a third of the same mechanism found while
-  building the model — are recognised by decidable classifiers on the *dumped* state:
+  The two exceptions the property text names — a third of the same mechanism found while
+  building the model, and a fourth found while proving the restore half — are recognised by
+  decidable classifiers on the *dumped* state:
     KF2  `resizedOnAlt`                     (the parked primary has stale geometry)
     KF1  `¬cursorStepFaithful`, mode part   (`CSI u` in dump step 9 restores other modes)
     KF3  `¬cursorStepFaithful`, position    (the relative moves after `CSI u` stop at a margin)
+    KF6  `sizeExceedsU16`                   (`cols ≥ 65535` or `rows > 65535`: the numbers `dump()` writes —
+                                             cursor address, tab stops, margins, REP counts, saved
+                                             positions — are read back modulo 2^16)
   A failure is attributed to a finding only when the difference is confined to what that finding
   can disturb; every other difference is an unclassified `C11:` failure.
 -/
@@ -144,8 +148,14 @@ def step9PositionFaithful (t : Terminal) : Bool :=
 def cursorStepFaithful (t : Terminal) : Bool :=
   !cursorOutsideRegion t || (step9ModesFaithful t && step9PositionFaithful t)
 
+/-- KF6: a dimension exceeds what a 16-bit CSI parameter can carry (`Param::add_digit` keeps the value
+    modulo 65536), so positions `dump()` writes as numbers need not round-trip.  The largest number
+    written for a column is `cols + 1` (cursor parked wrap-pending), for a row `rows`: faithful sizes
+    are `cols ≤ 65534`, `rows ≤ 65535`. -/
+def sizeExceedsU16 (t : Terminal) : Bool := decide (t.cols ≥ 65535) || decide (t.rows > 65535)
+
 inductive Finding where
-  | kf1 | kf2 | kf3
+  | kf1 | kf2 | kf3 | kf6
   deriving DecidableEq, Repr
 
 /-- which known findings apply to a dumped state -/
@@ -153,18 +163,30 @@ def findings (t : Terminal) : List Finding :=
   (if resizedOnAlt t then [Finding.kf2] else [])
   ++ (if cursorStepFaithful t then []
       else if !step9ModesFaithful t then [Finding.kf1] else [Finding.kf3])
+  ++ (if sizeExceedsU16 t then [Finding.kf6] else [])
 
 def Finding.label : Finding → String
   | .kf1 => "KF1:dump-step9-CSI-u-restores-other-origin/auto-wrap-modes"
   | .kf2 => "KF2:resized-while-on-alternate-screen(parked-primary-has-stale-geometry)"
   | .kf3 => "KF3:dump-step9-relative-moves-after-CSI-u-stop-at-a-margin"
+  | .kf6 => "KF6:size-exceeds-u16-parameter-range"
 
 /-- what a finding can disturb in the restored terminal right after the restore:
     KF2 — the parked primary buffer;
     KF1/KF3 — cursor position, the two modes `CSI u` sets, the pending wrap, and (when a wrap is
-    pending) the cell re-printed at the last column of the wrong row. -/
+    pending) the cell re-printed at the last column of the wrong row;
+    KF6 — everything `dump()` writes as a number: cursor position (hence the pending wrap), tab stops,
+    margins, the positions of both saved contexts, and the cells of both screens (REP counts; a
+    re-print at a wrong position).  Modes, pens, character sets and the parser are still compared. -/
 def excuse (fs : List Finding) (dumped : Terminal) (t : Terminal) : Terminal :=
   let t := if fs.contains .kf2 then { t with otherBuffer := deadBuffer } else t
+  let t := if fs.contains .kf6 then
+    { t with cursor := { t.cursor with col := 0, row := 0 }, pendingWrap := false, tabs := [],
+             topMargin := 0, bottomMargin := 0,
+             savedCtx := { t.savedCtx with cursorCol := 0, cursorRow := 0 },
+             alternateSavedCtx := { t.alternateSavedCtx with cursorCol := 0, cursorRow := 0 },
+             buffer := { t.buffer with view := [] }, otherBuffer := { t.otherBuffer with view := [] } }
+    else t
   if fs.contains .kf1 || fs.contains .kf3 then
     { t with cursor := { t.cursor with col := 0, row := 0 }, originMode := false, autoWrapMode := false,
              pendingWrap := false,
